@@ -3,6 +3,7 @@
 (the false-alarm probe: every check must stay green on it).  The agent gets the property text and a scratch worktree only."""
 import json, sys
 pid, tag, style = sys.argv[1], sys.argv[2], sys.argv[3]
+hint = sys.argv[4] if len(sys.argv) > 4 else ""
 p = {json.loads(l)["id"]: json.loads(l) for l in open("/verif/properties.jsonl")}[pid]
 styles = {
  "refactor": "a pure refactor of the code the property is anchored in: extract or inline a helper, replace an index loop by iterators (or the reverse), reorder independent statements or match arms, rename private items / locals, replace a chain of `if` by a `match`, move a private function to another module, change a private struct's field order or add a private cached field.  Observable behaviour of the public API must be IDENTICAL (same results, same errors incl. messages).",
@@ -24,6 +25,7 @@ The property (a guarantee users of the library rely on):
 
 Task: make ONE realistic change of moderate size (20-120 changed lines) to the library source (under /tmp/mut/{tag}/serde_arrow/src), of this kind:
   {styles[style]}
+{hint}
 Requirements:
   (a) the crate still compiles (also with `--features arrow-55,arrow2-0-17`), without new warnings that are errors;
   (b) the existing test suite still passes unedited: `cd /tmp/mut/{tag} && cargo test --workspace --no-fail-fast --offline` (499 tests pass on the unchanged tree);
